@@ -4,6 +4,8 @@ import (
 	"fmt"
 	"math"
 	"strings"
+	"sync/atomic"
+	"time"
 
 	"go.1password.io/spg"
 )
@@ -73,7 +75,14 @@ func (r OpResult) tkey() string {
 
 // under runs f with tape t installed and output captured. Harness sentinels
 // propagate; any other panic is an outcome of the operation.
+// opClock lets the watchdog see how long the library call in progress has been running.
+var opClock struct {
+	start int64 // unix nanoseconds of the call in progress, 0 when none (accessed atomically)
+}
+
 func under(t *Tape, f func(r *OpResult)) (res OpResult) {
+	atomic.StoreInt64(&opClock.start, time.Now().UnixNano())
+	defer atomic.StoreInt64(&opClock.start, 0)
 	prev := simr.cur
 	simr.cur = t
 	m := mark()
